@@ -250,7 +250,10 @@ func (p *Parser) Parse(r io.Reader, name string) (*File, error) {
 	if p.err == nil {
 		// EOF immediately after heredoc word so no newline to
 		// trigger the parsing error.
+		// The statement which holds the heredoc needs more input.
+		p.openNodes++
 		p.doHeredocs()
+		p.openNodes--
 	}
 	return p.f, p.err
 }
@@ -289,7 +292,10 @@ func (p *Parser) StmtsSeq(r io.Reader) iter.Seq2[*Stmt, error] {
 		if p.err == nil {
 			// EOF immediately after heredoc word so no newline to
 			// trigger the parsing error.
+			// The statement which holds the heredoc needs more input.
+			p.openNodes++
 			p.doHeredocs()
+			p.openNodes--
 		}
 		if p.err != nil {
 			// Yield any final error from the parser.
